@@ -65,7 +65,9 @@ def build(dt, order, version, variant, shape, arr):
     data = raw[8 + hl_size + hlen:]
     text = header_variant(hdr, variant)
     total = 8 + hl_size + len(text) + 1
-    pad = (64 - total % 64) % 64
+    # numpy up to 1.13 (and NEP 1) align the data to 16 bytes, not 64; a hand-written header may not pad at all
+    align = 16 if variant == "align16" else (1 if variant == "unpadded" else 64)
+    pad = (align - total % align) % align
     text = text + " " * pad + "\n"
     return raw[:8] + len(text).to_bytes(hl_size, "little") + text.encode("latin1") + data
 
@@ -79,8 +81,8 @@ for dt in DT:
         if order != "|" and size == 1 and order == ">":
             pass
         for version in ((1, 0), (2, 0), (3, 0)):
-            variants = ["numpy", "doublequote", "spaces", "nospaces", "reordered", "notrailing", "tabs"]
-            for variant in variants[: (7 if version == (1, 0) else 2)]:
+            variants = ["numpy", "doublequote", "spaces", "nospaces", "reordered", "notrailing", "tabs", "align16", "unpadded"]
+            for variant in (variants if version == (1, 0) else ["numpy", "doublequote", "align16"]):
                 for rep in range(per):
                     vals = boundary(dt)
                     k = np.dtype(dt)
@@ -95,6 +97,12 @@ for dt in DT:
                     shape = (len(vals),) if rep % 2 == 0 or len(vals) % 2 else (2, len(vals) // 2)
                     arr = arr.reshape(shape)
                     arr = arr.astype(np.dtype(order.replace("|", "=") + dt) if size > 1 else k)
+                    if n % 2 == 1:
+                        # the first byte(s) of the data equal to a space or a line feed (what pads and ends the header)
+                        raw = bytearray(arr.tobytes())
+                        k0 = 1 if n % 4 == 1 else min(len(raw), size)
+                        raw[:k0] = (b" " if n % 8 < 4 else b"\n") * k0
+                        arr = np.frombuffer(bytes(raw), dtype=arr.dtype).reshape(shape)
                     b = build(dt, order, version, variant, shape, arr)
                     if size == 1 and order in ("<", ">"):
                         # numpy writes '|i1'; respell the byte order explicitly
